@@ -1407,6 +1407,9 @@ func serRateKey(rt *tax.RateTotal) string {
 
 func judgeMerge(c *core.Ctx, t tcase, o goOut, resp []string, key string) {
 	c.Eval(key, sharesCategory(t.A, t.B))
+	if sharesCategory(t.A, t.B) {
+		c.Sample(map[string]any{"kind": "merge", "case": t, "go": o})
+	}
 	a, b := t.A.build(), t.B.build()
 	dup := hasDuplicates(a) || hasDuplicates(b)
 	weird := hasExemptSurcharge(a) || hasExemptSurcharge(b)
@@ -1507,6 +1510,9 @@ func parseBack(a, b *tax.Total) *tax.Total { return a.Merge(b) }
 func judgePay(c *core.Ctx, t tcase, o goOut, resp []string, key string) {
 	p := t.Pay
 	c.Eval(key, len(p.Lines) > 0)
+	if len(p.Lines) > 1 {
+		c.Sample(map[string]any{"kind": "payment", "case": t, "go": o})
+	}
 	c.Count(fmt.Sprintf("pay-lines:%d", len(p.Lines)), 1)
 	curs := map[string]bool{p.Currency: true}
 	weird := false
